@@ -636,6 +636,7 @@ impl Server {
         let mut should_close = false;
         let mut timeout_check = false;
         let mut conn_closed = false;
+        let mut protocol_error: Option<String> = None;
         
         // First phase: read and parse with the lock
         let read_result = self.connections.with_connection(id, |conn| -> Result<()> {
@@ -686,9 +687,11 @@ impl Server {
                                         return Err(e);
                                     },
                                     _ => {
-                                        // Other parsing errors - log but don't immediately close connection
-                                        // This improves tolerance for pipelining edge cases
+                                        // The byte stream violates the protocol and cannot be resynchronised:
+                                        // the frames parsed so far are answered, then an error reply, then the
+                                        // connection is closed
                                         eprintln!("Parse warning for connection {}: {}", id, e);
+                                        protocol_error = Some(e.to_string());
                                         break;
                                     }
                                 }
@@ -798,6 +801,12 @@ impl Server {
                 }
             };
             responses.push(response);
+        }
+        
+        // A protocol violation is answered with an error instead of silence
+        if let Some(msg) = protocol_error {
+            responses.push(RespFrame::error(format!("ERR {}", msg)));
+            should_close = true;
         }
         
         // Third phase: send responses with special handling for commands needing immediate delivery
